@@ -339,7 +339,9 @@ def overlay_templates(keys):
 def rollback_templates(keys, maxlog):
     """Hand-written legal NomtApi behaviours around rollbacks of overlay chains: a committed (or absent) key is
     deleted / overwritten in overlay o1, written again in o2 on top of it, both are committed, then rolled back one
-    commit at a time.  The priors recorded for o2's delta must come from o1, not from the store."""
+    commit at a time.  The priors recorded for o2's delta must come from o1, not from the store.
+    Returns (behaviour, twin) pairs; the twin makes the same two commits directly (C11: an overlay chain behaves
+    exactly like the commits it stands for)."""
     N = {k: "NoCh" for k in keys}
     out = []
     a, b = keys[0], keys[1]
@@ -347,21 +349,25 @@ def rollback_templates(keys, maxlog):
         for w1 in ("Nil", "v2"):
             for w2 in ("v1", "Nil", "v2"):
                 for flavour in (0, 1):
-                    beh = []
+                    pre = []
                     if base:
-                        beh += [dict(a="Begin", s=1, chain=[], res="Ok"), dict(a="Finish", s=1, f=1, w=dict(N, **{a: base, b: "v1"})),
-                                dict(a="Commit", f=1, res="Ok")]
-                    beh += [dict(a="Begin", s=1, chain=[], res="Ok"), dict(a="Finish", s=1, f=1, w=dict(N, **{a: w1})),
-                            dict(a="IntoOverlay", f=1, o=1),
-                            dict(a="Begin", s=1, chain=[1], res="Ok"), dict(a="Finish", s=1, f=1, w=dict(N, **{a: w2, b: "v2"})),
-                            dict(a="IntoOverlay", f=1, o=2),
-                            dict(a="OverlayCommit" if flavour == 0 else "OverlayTryCommit", o=1, res="Ok"),
-                            dict(a="OverlayTryCommit" if flavour == 0 else "OverlayCommit", o=2, res="Ok"),
-                            dict(a="Rollback", n=1, res="Ok")]
+                        pre = [dict(a="Begin", s=1, chain=[], res="Ok"), dict(a="Finish", s=1, f=1, w=dict(N, **{a: base, b: "v1"})),
+                               dict(a="Commit", f=1, res="Ok")]
+                    post = [dict(a="Rollback", n=1, res="Ok")]
                     if maxlog >= 2:
-                        beh += [dict(a="Rollback", n=1, res="Ok")]
-                    beh += [dict(a="Close"), dict(a="Reopen")]
-                    out.append(beh)
+                        post += [dict(a="Rollback", n=1, res="Ok")]
+                    post += [dict(a="Close"), dict(a="Reopen")]
+                    beh = pre + [dict(a="Begin", s=1, chain=[], res="Ok"), dict(a="Finish", s=1, f=1, w=dict(N, **{a: w1})),
+                                 dict(a="IntoOverlay", f=1, o=1),
+                                 dict(a="Begin", s=1, chain=[1], res="Ok"), dict(a="Finish", s=1, f=1, w=dict(N, **{a: w2, b: "v2"})),
+                                 dict(a="IntoOverlay", f=1, o=2),
+                                 dict(a="OverlayCommit" if flavour == 0 else "OverlayTryCommit", o=1, res="Ok"),
+                                 dict(a="OverlayTryCommit" if flavour == 0 else "OverlayCommit", o=2, res="Ok")] + post
+                    twin = pre + [dict(a="Begin", s=1, chain=[], res="Ok"), dict(a="Finish", s=1, f=1, w=dict(N, **{a: w1})),
+                                  dict(a="Commit" if flavour == 0 else "TryCommit", f=1, res="Ok"),
+                                  dict(a="Begin", s=1, chain=[], res="Ok"), dict(a="Finish", s=1, f=1, w=dict(N, **{a: w2, b: "v2"})),
+                                  dict(a="TryCommit" if flavour == 0 else "Commit", f=1, res="Ok")] + post
+                    out.append((beh, twin))
     return out
 
 
